@@ -556,7 +556,7 @@ pub mod cluster {
     /// `pool.is_some()`, not the state override that `is_enabled()` reports for hook-built states
     /// (`None` = no such node).
     pub fn node_has_pool(state: &ClusterState, host_id: Uuid) -> Option<bool> {
-        state.known_nodes.get(&host_id).map(|n| n.pool.is_some())
+        state.known_nodes.get(&host_id).map(|n| n.verif_has_pool())
     }
 
     /// A host filter that accepts exactly the peers whose host id is in the set.
